@@ -141,7 +141,9 @@ def r4(ctx):
                 # from_u8(tz).unwrap() with tz >= 64: infeasible (trailing_zeros of a non-zero word), recorded under C07
                 continue
             zero = [v for t, v in lf.cond if t == ("bin", "Eq", xs, T.I(0, "u64")) or t == ("bin", "Eq", T.I(0, "u64"), xs)]
-            tz = [(t, v) for t, v in lf.cond if t[0] == "cast" and t[2][0] == "app" and "trailing_zeros" in t[2][1] and isinstance(v, int)]
+            # the key: trailing_zeros of the NonZero view of the word, or of the word itself on a path that has excluded the empty board
+            is_tz = lambda t: t[0] == "cast" and ((t[2][0] == "app" and "trailing_zeros" in t[2][1]) or (t[2][0] == "trailing_zeros" and t[2][1] == xs and (zero == [0] or fn != "pop")))
+            tz = [(t, v) for t, v in lf.cond if is_tz(t) and isinstance(v, int)]
             final = eng.freeze(lf.state, lf.ext.get(slf, ("obj", slf)))
             neww = T.get_path(final, (("f", 0, "0", None),)) if final != ("obj", slf) else xs
             if fn == "pop" and zero == [1]:
@@ -149,7 +151,7 @@ def r4(ctx):
                     bad.append(f"pop on the empty board returns {T.show(lf.ret)} / leaves {T.show(neww)[:60]}")
                 seen.add("empty")
                 continue
-            beyond = [v for t, v in lf.cond if t[0] == "cast" and t[2][0] == "app" and "trailing_zeros" in t[2][1] and isinstance(v, tuple) and v and v[0] == "not" and set(range(64)) <= set(v[1])]
+            beyond = [v for t, v in lf.cond if is_tz(t) and isinstance(v, tuple) and v and v[0] == "not" and set(range(64)) <= set(v[1])]
             if beyond and not tz:
                 continue        # the `64.. =>` arm of the square table: trailing_zeros of a non-zero word is below 64 (infeasible; its panic twin is recorded under C07)
             if len(tz) != 1:
